@@ -90,7 +90,7 @@ loop("find.find_reference_citations_from_markup", 2,
 loop("find.find_reference_citations_from_markup", 3,
     invariant=_mref("references", "len(ghost.src) == len(references)"))
 ghost_code("find.find_reference_citations_from_markup", "loop1:body_start", "ghost.cur = k")
-ghost_code("find.find_reference_citations_from_markup", "after:Expr#3", "ghost.src = seq_append(ghost.src, ghost.cur)")
+ghost_code("find.find_reference_citations_from_markup", "after:call:references.append#1", "ghost.src = seq_append(ghost.src, ghost.cur)")
 
 MARKUP_REF_SKELETON = ["<(?:", ")>\\s*(", ")[:;.,\\s]*</(?:", ")>"]
 
@@ -116,11 +116,11 @@ def _markup_ref_group1(e, st, ms, pat, text):
     e.trust("E-RE-GROUP1: group 1 of the style-tag regex <(?:em|i)>\\s*(NAMES)[:;.,\\s]*</(?:em|i)> participates in every match (skeleton re-read from the AST)")
 
 # lemma steps: monotone translation of the four markup offsets of one match
-ghost_code("find.find_reference_citations_from_markup", "after:Assign#10",
+ghost_code("find.find_reference_citations_from_markup", "after:assign:end_in_plain#1",
     "use_lemma('update_monotone_00', document.markup_to_plain, start_in_markup + match.start(), start_in_markup + match.start(1))\n"
     "use_lemma('update_monotone_01', document.markup_to_plain, start_in_markup + match.start(1), start_in_markup + match.end(1))\n"
     "use_lemma('update_monotone_11', document.markup_to_plain, start_in_markup + match.end(1), start_in_markup + match.end())\n"
     "assert full_start_in_plain <= start_in_plain and start_in_plain <= end_in_plain and end_in_plain <= full_end_in_plain, 'offsets_ordered'")
 # lemma steps: the two instances of ROUNDTRIP the invariant needs
-ghost_code("find.find_reference_citations_from_markup", "after:Assign#7", "assert full_start_in_plain >= citation.span()[0], 'roundtrip_full_start'")
-ghost_code("find.find_reference_citations_from_markup", "after:Assign#9", "assert start_in_plain >= citation.span()[0], 'roundtrip_start'")
+ghost_code("find.find_reference_citations_from_markup", "after:assign:full_start_in_plain#1", "assert full_start_in_plain >= citation.span()[0], 'roundtrip_full_start'")
+ghost_code("find.find_reference_citations_from_markup", "after:assign:start_in_plain#1", "assert start_in_plain >= citation.span()[0], 'roundtrip_start'")
